@@ -228,6 +228,26 @@ func (fc *fnCtx) heapGet(st *State, name, sort string) string {
 			fc.defs.Axiom(n, fmt.Sprintf("(forall ((r Int)) (! (and (<= 0 (select %s r)) (< (select %s r) %s)) :pattern ((select %s r))))", n, n, t.alloc0, n))
 		case isSliceT(et) && (strings.HasPrefix(name, "f.") || strings.HasPrefix(name, "p.")):
 			fc.defs.Axiom(n, fmt.Sprintf("(forall ((r Int)) (! (and (<= 0 (sl.base (select %s r))) (< (sl.base (select %s r)) %s)) :pattern ((select %s r))))", n, n, t.alloc0, n))
+		case strings.HasPrefix(name, "e."):
+			// slice elements: pointers / slices stored in them (directly or in struct fields)
+			elem := fmt.Sprintf("(select (select %s r) i)", n)
+			var facts []string
+			add := func(term string, ft types.Type) {
+				if isPointer(ft) {
+					facts = append(facts, fmt.Sprintf("(<= 0 %s) (< %s %s)", term, term, t.alloc0))
+				} else if isSliceT(ft) {
+					facts = append(facts, fmt.Sprintf("(<= 0 (sl.base %s)) (< (sl.base %s) %s)", term, term, t.alloc0))
+				}
+			}
+			add(elem, et)
+			if ss := fc.S().structOf(et); ss != nil {
+				for i, f := range ss.fields {
+					add("("+f+" "+elem+")", ss.ftypes[i])
+				}
+			}
+			if len(facts) > 0 {
+				fc.defs.Axiom(n, fmt.Sprintf("(forall ((r Int) (i Int)) (! (and %s) :pattern (%s)))", strings.Join(facts, " "), elem))
+			}
 		}
 	}
 	if t.framedBases[st.heapBase] && t.entry != nil {
@@ -325,6 +345,7 @@ func (fc *fnCtx) heapPtrName(t types.Type) (string, string) {
 }
 
 func (fc *fnCtx) heapElemName(elem types.Type) (string, string) {
+	fc.top.heapElemTy["e."+mangle(elem)] = elem
 	return "e." + mangle(elem), "(Array Int (Array Int " + fc.S().SortOf(elem) + "))"
 }
 
@@ -749,6 +770,9 @@ func (fc *fnCtx) freshVal(st *State, prefix string, t types.Type) Val {
 	}
 	if _, ok := t.Underlying().(*types.Slice); ok {
 		fc.assume(st, fmt.Sprintf("(< (sl.base %s) %s)", n, st.alloc))
+	}
+	if isInterface(t) {
+		fc.assume(st, fmt.Sprintf("(< (if.val %s) %s)", n, st.alloc))
 	}
 	return Val{T: n, Ty: t}
 }
